@@ -508,7 +508,7 @@ impl World {
 /// second relative to that base; expired and empty buckets are left out).
 fn state_key(case: &Case, proj: &Value) -> String {
     let now = proj["now"].as_i64().unwrap();
-    let g = (case.pay.b * case.fee.b) as i64;
+    let g = lcm(case.pay.b, case.fee.b) as i64;
     let base = now - now.rem_euclid(g);
     let mut parts = vec![format!("{}", now - base)];
     for (name, p) in [("pay", &case.pay), ("fee", &case.fee), ("dpay", &case.pay), ("dfee", &case.fee)] {
@@ -543,6 +543,16 @@ fn within_cap(case: &Case, proj: &Value) -> bool {
         }
     }
     true
+}
+
+fn lcm(a: u64, b: u64) -> u64 {
+    let (mut x, mut y) = (a, b);
+    while y != 0 {
+        let t = x % y;
+        x = y;
+        y = t;
+    }
+    a / x * b
 }
 
 struct Row {
